@@ -180,11 +180,12 @@ impl SourceView {
     /// Returns a requested minified line.
     pub fn get_line(&self, idx: u32) -> Option<&str> {
         let idx = idx as usize;
-        {
-            let lines = self.lines.lock().unwrap();
-            if idx < lines.len() {
-                return Some(lines[idx]);
-            }
+        // Hold the lock across the cache check, the "fetched everything" check and
+        // the indexing loop: another thread finishing the index in between would
+        // otherwise make us slice past the end of the source or miss a cached line.
+        let mut lines = self.lines.lock().unwrap();
+        if idx < lines.len() {
+            return Some(lines[idx]);
         }
 
         // fetched everything
@@ -192,7 +193,6 @@ impl SourceView {
             return None;
         }
 
-        let mut lines = self.lines.lock().unwrap();
         let mut done = false;
 
         while !done {
